@@ -196,3 +196,85 @@ func VerifC04_v7_aliases() {
 		verifAssert("openapi:schema-accepts-iff-server-accepts", specOK == ran)
 	}
 }
+
+// design v7, method grid: [[Cell]] with Cell{label required}.
+func VerifC04_v7_grid() {
+	cell := &server.CellRequestBody{}
+	if nondetBool("label-present") {
+		l := nondetStringUpTo("label", 1)
+		cell.Label = &l
+	}
+	var body [][]*server.CellRequestBody
+	switch nondetChoice("shape", 3) {
+	case 0:
+		body = [][]*server.CellRequestBody{}
+	case 1:
+		body = [][]*server.CellRequestBody{{cell}}
+	default:
+		ok := "k"
+		body = [][]*server.CellRequestBody{{{Label: &ok}}, {{Label: &ok}, cell}}
+	}
+	hasCell := len(body) > 0
+	valid := !hasCell || cell.Label != nil
+	called := 0
+	endpoint := func(ctx context.Context, p any) (any, error) { called++; return nil, nil }
+	dec := func(*http.Request) goahttp.Decoder {
+		return stubDecoder{func(v any) error { *(v.(*[][]*server.CellRequestBody)) = body; return nil }}
+	}
+	w := newRecWriter()
+	server.NewGridHandler(endpoint, &stubMux{}, dec, recEncoder(), nil, nil).ServeHTTP(w, newRequest("POST", nil))
+	ran := called == 1
+	verifAssert("endpoint-runs-iff-request-valid", ran == valid)
+	if !ran {
+		verifAssert("rejected:exactly-one-400", w.nHeaders == 1 && w.status == http.StatusBadRequest)
+		verifAssert("rejected:names-a-violated-rule", errorName(w) == "missing_field")
+	}
+	verifAssert("openapi:schema-accepts-iff-server-accepts", verifSchemaAccepts(openapiDoc, "POST /grid", map[string]any{"body": body}) == ran)
+}
+
+// design v7, methods zip and country: one server process validates a body
+// attribute named code with ^[0-9]{2}$ for zip and ^[A-Z]{2}$ for country;
+// the verdict of each request depends on its own endpoint's pattern whatever
+// was validated before.
+func VerifC04_v7_codes() {
+	vals := []string{"12", "AB", "a1", ""}
+	first, second := vals[nondetChoice("first", len(vals))], vals[nondetChoice("second", len(vals))]
+	zipFirst := nondetBool("zip-first")
+	serve := func(zip bool, code string) (bool, *recWriter) {
+		called := 0
+		endpoint := func(ctx context.Context, p any) (any, error) { called++; return nil, nil }
+		w := newRecWriter()
+		if zip {
+			b := &server.ZipRequestBody{Code: &code}
+			dec := func(*http.Request) goahttp.Decoder {
+				return stubDecoder{func(v any) error { *(v.(*server.ZipRequestBody)) = *b; return nil }}
+			}
+			server.NewZipHandler(endpoint, &stubMux{}, dec, recEncoder(), nil, nil).ServeHTTP(w, newRequest("POST", nil))
+		} else {
+			b := &server.CountryRequestBody{Code: &code}
+			dec := func(*http.Request) goahttp.Decoder {
+				return stubDecoder{func(v any) error { *(v.(*server.CountryRequestBody)) = *b; return nil }}
+			}
+			server.NewCountryHandler(endpoint, &stubMux{}, dec, recEncoder(), nil, nil).ServeHTTP(w, newRequest("POST", nil))
+		}
+		return called == 1, w
+	}
+	wantOK := func(zip bool, code string) bool {
+		if zip {
+			return code == "12"
+		}
+		return code == "AB"
+	}
+	r1, _ := serve(zipFirst, first)
+	r2, w2 := serve(!zipFirst, second)
+	verifAssert("endpoint-runs-iff-request-valid", r1 == wantOK(zipFirst, first) && r2 == wantOK(!zipFirst, second))
+	if !r2 {
+		verifAssert("rejected:names-a-violated-rule", errorName(w2) == "invalid_pattern")
+	}
+	op := "POST /country"
+	var body any = &server.CountryRequestBody{Code: &second}
+	if !zipFirst {
+		op, body = "POST /zip", &server.ZipRequestBody{Code: &second}
+	}
+	verifAssert("openapi:schema-accepts-iff-server-accepts", verifSchemaAccepts(openapiDoc, op, map[string]any{"body": body}) == r2)
+}
